@@ -27,6 +27,7 @@ import (
 	"time"
 
 	"cosmossdk.io/log"
+	storetypes "cosmossdk.io/store/types"
 	sdkmath "cosmossdk.io/math"
 
 	abci "github.com/cometbft/cometbft/abci/types"
@@ -406,13 +407,28 @@ func genPlan(r *RNG, nBlocks int, addrs []sdk.AccAddress) ([][]genOp, [][]genTx,
 			case 10: // trigger on a future (or near) block height with a bank send action
 				owner, to := pick(), pick()
 				hOff := uint64(r.Intn(4))
+				// the gas left on the creating transaction's meter is what the trigger prepays: vary it
+				// (an unlimited meter always stores the maximum, which hides a lost or rewritten limit)
+				gasLeft := uint64(0)
+				if r.Chance(70) {
+					gasLeft = uint64(120_000 + r.Intn(1_500_000))
+				}
+				// some actions fail when they run (amount far above any balance): a failed trigger must
+				// leave nothing behind either
+				sendAmt := int64(1)
+				if r.Chance(30) {
+					sendAmt = 4_000_000_000_000_000
+				}
 				desc = append(desc, "trigger")
 				ops = append(ops, func(c *genChain, ctx sdk.Context) error {
 					msg, err := triggertypes.NewCreateTriggerRequest([]string{owner.String()},
 						&triggertypes.BlockHeightEvent{BlockHeight: uint64(c.height) + hOff},
-						[]sdk.Msg{&banktypes.MsgSend{FromAddress: owner.String(), ToAddress: to.String(), Amount: sdk.NewCoins(sdk.NewInt64Coin("usdx", 1))}})
+						[]sdk.Msg{&banktypes.MsgSend{FromAddress: owner.String(), ToAddress: to.String(), Amount: sdk.NewCoins(sdk.NewInt64Coin("usdx", sendAmt))}})
 					if err != nil {
 						return err
+					}
+					if gasLeft > 0 {
+						ctx = ctx.WithGasMeter(storetypes.NewGasMeter(gasLeft))
 					}
 					resp, err := triggerkeeper.NewMsgServerImpl(c.a.TriggerKeeper).CreateTrigger(ctx, msg)
 					if testing.Verbose() && c.label == "run1" {
@@ -449,11 +465,28 @@ func genPlan(r *RNG, nBlocks int, addrs []sdk.AccAddress) ([][]genOp, [][]genTx,
 					scopeID := metadatatypes.ScopeMetadataAddress(genUUID(r))
 					owner, vo := pick(), pick()
 					desc = append(desc, "scope")
+					// a net asset value of the scope, priced in usd or in a marker denom (the record must
+					// survive an export/import also after that marker has been destroyed and purged)
+					navDenom := ""
+					if r.Chance(60) {
+						navDenom = "usd"
+						if len(markers) > 0 && r.Chance(70) {
+							navDenom = markers[r.Intn(len(markers))]
+						}
+					}
+					navAmt := int64(1 + r.Intn(100000))
 					ops = append(ops, func(c *genChain, ctx sdk.Context) error {
-						return c.a.MetadataKeeper.SetScope(ctx, metadatatypes.Scope{ScopeId: scopeID, SpecificationId: specID,
+						if err := c.a.MetadataKeeper.SetScope(ctx, metadatatypes.Scope{ScopeId: scopeID, SpecificationId: specID,
 							Owners:            []metadatatypes.Party{{Address: owner.String(), Role: metadatatypes.PartyType_PARTY_TYPE_OWNER}},
 							DataAccess:        []string{vo.String()},
-							ValueOwnerAddress: vo.String()})
+							ValueOwnerAddress: vo.String()}); err != nil {
+							return err
+						}
+						if navDenom != "" {
+							return c.a.MetadataKeeper.AddSetNetAssetValues(ctx, scopeID,
+								[]metadatatypes.NetAssetValue{metadatatypes.NewNetAssetValue(sdk.NewInt64Coin(navDenom, navAmt), 1)}, "verif")
+						}
+						return nil
 					})
 				}
 			case 15: // marker cancel (+ delete): a destroyed marker lives until the next BeginBlocker removes it
@@ -492,6 +525,36 @@ func genPlan(r *RNG, nBlocks int, addrs []sdk.AccAddress) ([][]genOp, [][]genTx,
 				to, f1, f2 := pick(), pick(), pick()
 				amt := int64(1 + r.Intn(20))
 				if !r.Chance(34) {
+					continue
+				}
+				if r.Chance(45) {
+					// three senders, the third one accepted: the record's unaccepted senders are [f1 f2];
+					// next to it a two-sender record naming the same two in the OTHER order
+					f3 := pick()
+					amt2 := int64(1 + r.Intn(20))
+					desc = append(desc, "quarantine-multi3")
+					ops = append(ops, func(c *genChain, ctx sdk.Context) error {
+						if f1.Equals(f2) || f1.Equals(f3) || f2.Equals(f3) || to.Equals(f1) || to.Equals(f2) || to.Equals(f3) {
+							return fmt.Errorf("need four distinct accounts")
+						}
+						if err := c.a.QuarantineKeeper.SetOptIn(ctx, to); err != nil {
+							return err
+						}
+						holder := c.a.QuarantineKeeper.GetFundsHolder()
+						coins := sdk.NewCoins(sdk.NewInt64Coin("usdx", amt))
+						coins2 := sdk.NewCoins(sdk.NewInt64Coin("usdx", amt2))
+						if err := c.a.BankKeeper.SendCoins(quarantine.WithBypass(ctx), f1, holder, coins.Add(coins2...)); err != nil {
+							return err
+						}
+						if err := c.a.QuarantineKeeper.AddQuarantinedCoins(ctx, coins, to, f1, f2, f3); err != nil {
+							return err
+						}
+						if err := c.a.QuarantineKeeper.AddQuarantinedCoins(ctx, coins2, to, f2, f1); err != nil {
+							return err
+						}
+						_, err := c.a.QuarantineKeeper.AcceptQuarantinedFunds(ctx, to, f3)
+						return err
+					})
 					continue
 				}
 				desc = append(desc, "quarantine-multi")
@@ -768,6 +831,41 @@ func genRawStores(c *genChain) map[string]string {
 		res[m] = fmt.Sprintf("%d:%x", n, h.Sum(nil)[:8])
 	}
 	return res
+}
+
+// genAttrCounters checks the attribute module's derived name->address lookup counters against
+// the attribute records: for every (name, account) holding n attributes the counter must be
+// exactly n on a freshly initialised chain (InitGenesis recounts from the records) and at least n
+// on the original chain (SetAttribute also counts an overwrite); a counter without records must
+// not exist on a freshly initialised chain. "" = fine.
+func genAttrCounters(c *genChain, exact bool) string {
+	ctx := c.a.BaseApp.NewContextLegacy(true, cmtproto.Header{ChainID: genChainID, Height: c.a.LastBlockHeight()})
+	store := ctx.KVStore(c.a.GetKey("attribute"))
+	want := map[string]uint64{}
+	_ = c.a.AttributeKeeper.IterateRecords(ctx, attrtypes.AttributeKeyPrefix, func(a attrtypes.Attribute) error {
+		want[string(attrtypes.AttributeNameAddrKeyPrefix(a.Name, a.GetAddressBytes()))]++
+		return nil
+	})
+	for k, n := range want {
+		bz := store.Get([]byte(k))
+		var got uint64
+		if len(bz) == 8 {
+			got = sdk.BigEndianToUint64(bz)
+		}
+		if got < n || (exact && got != n) {
+			return fmt.Sprintf("attribute-counter(have %d, records %d)", got, n)
+		}
+	}
+	if exact {
+		it := store.Iterator([]byte{0x03}, []byte{0x04})
+		defer it.Close()
+		for ; it.Valid(); it.Next() {
+			if _, ok := want[string(it.Key())]; !ok {
+				return "attribute-counter(without records)"
+			}
+		}
+	}
+	return ""
 }
 
 // genQuarantineDiff classifies a difference between the quarantine genesis of the original and
@@ -1099,6 +1197,17 @@ func genCase(t *testing.T, seed uint64, nBlocks int, out *Out) (string, string) 
 						if testing.Verbose() {
 							fmt.Println("ROUNDTRIP DIFF", m, "\n", exp1[m], "\n", exp2[m])
 						}
+					}
+				}
+				if cc := genAttrCounters(c4, true); cc != "" {
+					bad = append(bad, "attribute-counter")
+					if testing.Verbose() {
+						fmt.Println("ATTRCOUNTER imported", cc)
+					}
+				} else if cc := genAttrCounters(c1, false); cc != "" {
+					bad = append(bad, "attribute-counter-orig")
+					if testing.Verbose() {
+						fmt.Println("ATTRCOUNTER original", cc)
 					}
 				}
 				if len(bad) > 0 {
